@@ -1879,6 +1879,486 @@ fn rshrink(case: &str, still_fails: &dyn Fn(&str) -> bool) -> String {
 }
 
 
+
+// =====================================================================================================
+// `HttpSymbolSupplier::locate_file_internal` (and `locate_symbols`) against a loopback server that counts
+// requests:  `once http x:<j|m> mods:.. urls:<n> tasks:.. srv:<k.<fk|s>=<u|n>:<0|1>,..>`
+// =====================================================================================================
+
+use breakpad_symbols::HttpSymbolSupplier;
+use std::io::{Read as _, Write as _};
+use std::sync::atomic::AtomicU64;
+
+static HTTP_RID: AtomicU64 = AtomicU64::new(0);
+
+struct HServer {
+    port: u16,
+    /// request target path (without query) -> body of the 200 answer; everything else is a 404
+    routes: Arc<Mutex<BTreeMap<String, Vec<u8>>>>,
+    /// request targets as received, in order of arrival
+    log: Arc<Mutex<Vec<String>>>,
+}
+
+fn hserve_one(mut s: std::net::TcpStream, routes: &Mutex<BTreeMap<String, Vec<u8>>>, log: &Mutex<Vec<String>>) {
+    let _ = s.set_nodelay(true);
+    let _ = s.set_read_timeout(Some(std::time::Duration::from_secs(20)));
+    let mut head = vec![];
+    let mut buf = [0u8; 2048];
+    while !head.windows(4).any(|w| w == b"\r\n\r\n") {
+        match s.read(&mut buf) {
+            Ok(0) | Err(_) => return,
+            Ok(n) => head.extend_from_slice(&buf[..n]),
+        }
+        if head.len() > 65536 {
+            return;
+        }
+    }
+    let text = String::from_utf8_lossy(&head).to_string();
+    let target = text.split(' ').nth(1).unwrap_or("").to_string();
+    log.lock().unwrap().push(target.clone());
+    let path = target.split('?').next().unwrap_or("").to_string();
+    let body = routes.lock().unwrap().get(&path).cloned();
+    // a little latency: the lookups of the other tasks arrive while this one is in flight
+    std::thread::sleep(std::time::Duration::from_micros(300));
+    let _ = match body {
+        Some(b) => s
+            .write_all(format!("HTTP/1.1 200 OK\r\nConnection: close\r\nContent-Type: text/plain\r\nContent-Length: {}\r\n\r\n", b.len()).as_bytes())
+            .and_then(|_| s.write_all(&b)),
+        None => s.write_all(b"HTTP/1.1 404 Not Found\r\nConnection: close\r\nContent-Length: 0\r\n\r\n"),
+    };
+    let _ = s.flush();
+    let _ = s.shutdown(std::net::Shutdown::Both);
+}
+
+impl HServer {
+    fn start() -> HServer {
+        let mut tries = 0;
+        let listener = loop {
+            match std::net::TcpListener::bind("127.0.0.1:0") {
+                Ok(l) => break l,
+                Err(e) => {
+                    tries += 1;
+                    if tries > 200 {
+                        panic!("bind loopback: {e:?}");
+                    }
+                    std::thread::sleep(std::time::Duration::from_millis(100));
+                }
+            }
+        };
+        let port = listener.local_addr().unwrap().port();
+        let routes = Arc::new(Mutex::new(BTreeMap::new()));
+        let log = Arc::new(Mutex::new(vec![]));
+        let (r2, l2) = (routes.clone(), log.clone());
+        std::thread::spawn(move || {
+            for conn in listener.incoming().flatten() {
+                let (r3, l3) = (r2.clone(), l2.clone());
+                std::thread::spawn(move || hserve_one(conn, &r3, &l3));
+            }
+        });
+        HServer { port, routes, log }
+    }
+}
+
+thread_local! {
+    /// one server per harness thread, alive for the whole run (requests of a case carry its run id)
+    static HSERVER: std::cell::RefCell<Option<Arc<HServer>>> = const { std::cell::RefCell::new(None) };
+}
+fn hserver() -> Arc<HServer> {
+    HSERVER.with(|s| s.borrow_mut().get_or_insert_with(|| Arc::new(HServer::start())).clone())
+}
+
+#[derive(Clone, Debug)]
+struct HCase {
+    mode: char,
+    mods: Vec<ModSpec>,
+    nurls: usize,
+    progs: Vec<Vec<Rq>>,
+    /// (key, kind 0..2 | 3 = symbols) -> (index of the first server answering 200, already in the cache dir)
+    srv: BTreeMap<(usize, u8), (Option<usize>, bool)>,
+}
+impl HCase {
+    fn key(&self, m: usize) -> usize {
+        let id = self.mods[m].ident();
+        self.mods.iter().position(|x| x.ident() == id).unwrap()
+    }
+    fn expect_ok(&self, k: usize, fk: u8) -> bool {
+        let (u, l) = self.srv[&(k, fk)];
+        l || u.map(|u| u < self.nurls).unwrap_or(false)
+    }
+}
+
+fn parse_hcase(case: &str) -> Option<HCase> {
+    let f: Vec<&str> = case.split(' ').filter(|s| !s.is_empty()).collect();
+    if f.len() != 7 || f[0] != "once" || f[1] != "http" {
+        return None;
+    }
+    let mode = match f[2].strip_prefix("x:")? {
+        "j" => 'j',
+        "m" => 'm',
+        _ => return None,
+    };
+    let mods: Vec<ModSpec> = f[3].strip_prefix("mods:")?.split(';').map(ModSpec::parse).collect::<Option<_>>()?;
+    let nurls: usize = f[4].strip_prefix("urls:")?.parse().ok()?;
+    let progs = parse_progs(f[5].strip_prefix("tasks:")?)?;
+    let mut srv = BTreeMap::new();
+    let st = f[6].strip_prefix("srv:")?;
+    if st != "-" {
+        for e in st.split(',') {
+            let (kk, v) = e.split_once('=')?;
+            let (k, fk) = kk.split_once('.')?;
+            let fk: u8 = if fk == "s" { 3 } else { fk.parse().ok().filter(|n| *n < 3)? };
+            let (u, l) = v.split_once(':')?;
+            let u = if u == "n" { None } else { Some(u.parse().ok()?) };
+            let l = match l {
+                "0" => false,
+                "1" => true,
+                _ => return None,
+            };
+            srv.insert((k.parse().ok()?, fk), (u, l));
+        }
+    }
+    let c = HCase { mode, mods, nurls, progs, srv };
+    for q in c.progs.iter().flatten() {
+        if q.m >= c.mods.len() {
+            return None;
+        }
+        let fk = match q.kind {
+            Rk::Fill => 3,
+            Rk::File(fk) => fk,
+            Rk::Walk => return None,
+        };
+        if !c.srv.contains_key(&(c.key(q.m), fk)) {
+            return None;
+        }
+    }
+    // every module needs the full identity: the lookup paths are built from all four components
+    if c.mods.iter().any(|m| !matches!(m.cf, Cf::Path(..)) || m.ci.is_none() || m.df.is_none() || m.di.is_none()) {
+        return None;
+    }
+    Some(c)
+}
+
+fn render_hcase(c: &HCase) -> String {
+    let srv = if c.srv.is_empty() {
+        "-".to_string()
+    } else {
+        c.srv
+            .iter()
+            .map(|((k, fk), (u, l))| {
+                format!(
+                    "{k}.{}={}:{}",
+                    if *fk == 3 { "s".to_string() } else { fk.to_string() },
+                    u.map(|u| u.to_string()).unwrap_or("n".into()),
+                    if *l { 1 } else { 0 }
+                )
+            })
+            .collect::<Vec<_>>()
+            .join(",")
+    };
+    format!(
+        "once http x:{} mods:{} urls:{} tasks:{} srv:{srv}",
+        c.mode,
+        c.mods.iter().map(|m| m.show()).collect::<Vec<_>>().join(";"),
+        c.nurls,
+        show_progs(&c.progs)
+    )
+}
+
+struct ArcSup(Arc<HttpSymbolSupplier>);
+#[async_trait]
+impl SymbolSupplier for ArcSup {
+    async fn locate_symbols(&self, module: &(dyn Module + Sync)) -> Result<LocateSymbolsResult, SymbolError> {
+        self.0.locate_symbols(module).await
+    }
+    async fn locate_file(&self, module: &(dyn Module + Sync), file_kind: FileKind) -> Result<PathBuf, FileError> {
+        self.0.locate_file(module, file_kind).await
+    }
+}
+
+struct HRunOut {
+    summary: String,
+    /// (task, request, key, kind, answer)
+    answers: Vec<(usize, usize, usize, u8, String)>,
+    /// (key, kind, url index) -> number of GETs
+    gets: BTreeMap<(usize, u8, usize), usize>,
+    unknown_targets: Vec<String>,
+    pend: (u64, u64),
+    done: bool,
+}
+
+fn hscratch() -> PathBuf {
+    let exe = std::env::current_exe().unwrap();
+    let d = exe.ancestors().nth(4).unwrap().join(".scratch/once").join(std::process::id().to_string());
+    std::fs::create_dir_all(&d).unwrap();
+    d
+}
+
+fn sym_body(m: &SimpleModule, k: usize) -> Vec<u8> {
+    format!(
+        "MODULE Linux x86 {} {}\nFUNC 1000 100 0 fn_http_k{k}\n",
+        m.debug_identifier().unwrap().breakpad(),
+        m.debug_file().unwrap()
+    )
+    .into_bytes()
+}
+
+fn hrun(c: &HCase) -> HRunOut {
+    let rid = HTTP_RID.fetch_add(1, Ordering::Relaxed);
+    let server = hserver();
+    let root = hscratch().join(format!("r{rid}"));
+    let (cache, tmp) = (root.join("cache"), root.join("tmp"));
+    std::fs::create_dir_all(&cache).unwrap();
+    std::fs::create_dir_all(&tmp).unwrap();
+    // routes and pre-seeded cache files
+    let mut rel_of: BTreeMap<String, (usize, u8)> = BTreeMap::new(); // server_rel -> (key, kind)
+    for ((k, fk), (u, l)) in &c.srv {
+        let m = c.mods[*k].build(None);
+        let lk = breakpad_symbols::lookup(&m, file_kind(if *fk == 3 { 0 } else { *fk })).expect("lookup");
+        let body = if *fk == 3 || *fk == 0 { sym_body(&m, *k) } else { format!("FILE k{k} kind{fk}\n").into_bytes() };
+        rel_of.insert(format!("{}#{}", lk.server_rel, if *fk == 3 { "s" } else { "f" }), (*k, *fk));
+        if let Some(u) = u {
+            if *u < c.nurls {
+                server.routes.lock().unwrap().insert(format!("/r{rid}u{u}/{}", lk.server_rel), body.clone());
+            }
+        }
+        if *l {
+            let p = cache.join(&lk.cache_rel);
+            std::fs::create_dir_all(p.parent().unwrap()).unwrap();
+            std::fs::write(&p, &body).unwrap();
+        }
+    }
+    let urls: Vec<String> = (0..c.nurls).map(|u| format!("http://127.0.0.1:{}/r{rid}u{u}/", server.port)).collect();
+    let rt: Arc<tokio::runtime::Runtime> = if c.mode == 'm' {
+        mt_runtime()
+    } else {
+        Arc::new(tokio::runtime::Builder::new_current_thread().enable_all().build().unwrap())
+    };
+    let sup = {
+        let _g = rt.enter();
+        Arc::new(HttpSymbolSupplier::new(urls, cache.clone(), tmp.clone(), vec![], std::time::Duration::from_secs(20)))
+    };
+    let symbolizer = Arc::new(Symbolizer::new(ArcSup(sup.clone())));
+    let answers: Arc<Mutex<Vec<(usize, usize, usize, u8, String)>>> = Arc::new(Mutex::new(vec![]));
+    let c2 = Arc::new(c.clone());
+    let body = |t: usize| {
+        let (c, sup, symbolizer, answers, cache) = (c2.clone(), sup.clone(), symbolizer.clone(), answers.clone(), cache.clone());
+        async move {
+            for (j, rq) in c.progs[t].iter().enumerate() {
+                let m = c.mods[rq.m].build(Some(format!("t{t}j{j}")));
+                let k = c.key(rq.m);
+                let (fk, out) = match rq.kind {
+                    Rk::File(fk) => {
+                        let want = breakpad_symbols::lookup(&m, file_kind(fk)).map(|l| cache.join(l.cache_rel));
+                        let out = match sup.locate_file_internal(&m, file_kind(fk)).await {
+                            Ok((path, _url)) => {
+                                if Some(&path) == want.as_ref() && path.is_file() {
+                                    "P0".to_string()
+                                } else {
+                                    format!("P?{}", path.display())
+                                }
+                            }
+                            Err(_) => "P-".to_string(),
+                        };
+                        (fk, out)
+                    }
+                    _ => {
+                        let mut f = SimpleFrame::with_instruction(0x1010);
+                        let out = match symbolizer.fill_symbol(&m, &mut f).await {
+                            Ok(()) if f.function.as_deref() == Some(&format!("fn_http_k{k}")) => "F0".to_string(),
+                            Ok(()) => format!("F?{:?}", f.function),
+                            Err(_) => "F-".to_string(),
+                        };
+                        (3, out)
+                    }
+                };
+                answers.lock().unwrap().push((t, j, k, fk, out));
+            }
+        }
+    };
+    let n = c.progs.len();
+    let done = if c.mode == 'j' {
+        rt.block_on(async {
+            let futs = (0..n).map(body);
+            tokio::time::timeout(std::time::Duration::from_secs(30), futures_util::future::join_all(futs)).await.is_ok()
+        })
+    } else {
+        let handles: Vec<_> = (0..n).map(|t| rt.spawn(body(t))).collect();
+        rt.block_on(async {
+            tokio::time::timeout(std::time::Duration::from_secs(30), futures_util::future::join_all(handles))
+                .await
+                .map(|rs| rs.iter().all(|r| r.is_ok()))
+                .unwrap_or(false)
+        })
+    };
+    // what the server saw of this run
+    let prefix = format!("/r{rid}u");
+    let mine: Vec<String> = {
+        let mut log = server.log.lock().unwrap();
+        let mine = log.iter().filter(|t| t.starts_with(&prefix)).cloned().collect();
+        log.retain(|t| !t.starts_with(&prefix));
+        mine
+    };
+    server.routes.lock().unwrap().retain(|k, _| !k.starts_with(&prefix));
+    let mut gets: BTreeMap<(usize, u8, usize), usize> = BTreeMap::new();
+    let mut unknown = vec![];
+    for t in &mine {
+        let rest = &t[prefix.len()..];
+        let (u, rel) = rest.split_once('/').unwrap_or((rest, ""));
+        let (path, query) = match rel.split_once('?') {
+            Some((p, _)) => (p, true),
+            None => (rel, false),
+        };
+        match (u.parse::<usize>().ok(), rel_of.get(&format!("{path}#{}", if query { "s" } else { "f" }))) {
+            (Some(u), Some((k, fk))) => *gets.entry((*k, *fk, u)).or_insert(0) += 1,
+            _ => unknown.push(t.clone()),
+        }
+    }
+    let ps = symbolizer.pending_stats();
+    let answers = answers.lock().unwrap().clone();
+    let outs = (0..n)
+        .map(|t| format!("{t}:{}", answers.iter().filter(|a| a.0 == t).map(|a| a.4.clone()).collect::<Vec<_>>().join(",")))
+        .collect::<Vec<_>>()
+        .join(";");
+    let mut per: BTreeMap<(usize, u8), Vec<String>> = BTreeMap::new();
+    for ((k, fk, u), nn) in &gets {
+        let status = if c.srv[&(*k, *fk)].0 == Some(*u) { 200 } else { 404 };
+        per.entry((*k, *fk)).or_default().push(format!("{u}={status}x{nn}"));
+    }
+    let gets_s = per
+        .iter()
+        .map(|((k, fk), v)| format!("{k}.{}:{}", if *fk == 3 { "s".to_string() } else { fk.to_string() }, v.join(",")))
+        .collect::<Vec<_>>()
+        .join(";");
+    let summary = format!(
+        " final fin={} pend={}/{} outs:{outs} gets:{gets_s}",
+        if done { 1 } else { 0 },
+        ps.symbols_requested,
+        ps.symbols_processed
+    );
+    drop(symbolizer);
+    drop(sup);
+    let _ = std::fs::remove_dir_all(&root);
+    HRunOut { summary, answers, gets, unknown_targets: unknown, pend: (ps.symbols_requested, ps.symbols_processed), done }
+}
+
+fn horacle(c: &HCase, r: &HRunOut) -> Vec<(String, String)> {
+    let mut o = vec![];
+    // at most one request sequence per (module, file kind): no server is asked twice for one file
+    for ((k, fk, u), n) in &r.gets {
+        if *n > 1 {
+            o.push(("http-requested-twice".into(), format!("server {u} got {n} GETs for module {k} kind {}", if *fk == 3 { "symbols".to_string() } else { fk.to_string() })));
+        }
+    }
+    for t in &r.unknown_targets {
+        o.push(("http-unexpected-request".into(), t.clone()));
+    }
+    if !r.done {
+        o.push(("lost-wakeup-or-hang".into(), "the lookups did not finish within 30 s".into()));
+        return o;
+    }
+    // same result for all requesters of one file, failures included: the one the servers determine
+    let mut per: BTreeMap<(usize, u8), Vec<(usize, String)>> = BTreeMap::new();
+    for (t, _, k, fk, out) in &r.answers {
+        per.entry((*k, *fk)).or_default().push((*t, out.clone()));
+    }
+    for ((k, fk), v) in &per {
+        if let Some(other) = v.iter().find(|x| x.1 != v[0].1) {
+            o.push(("outcomes-disagree".into(), format!("module {k} kind {fk}: task {} got {} but task {} got {}", v[0].0, v[0].1, other.0, other.1)));
+        }
+        let ok = c.expect_ok(*k, *fk);
+        if let Some(bad) = v.iter().find(|x| x.1.ends_with('-') == ok || x.1.contains('?')) {
+            o.push(("wrong-outcome".into(), format!("module {k} kind {fk}: the file is {} but task {} got {}", if ok { "available" } else { "nowhere" }, bad.0, bad.1)));
+        }
+    }
+    let asked: BTreeSet<usize> = c.progs.iter().flatten().filter(|q| q.kind == Rk::Fill).map(|q| c.key(q.m)).collect();
+    if r.pend != (asked.len() as u64, asked.len() as u64) {
+        o.push(("final-counters".into(), format!("requested={} processed={} distinct modules asked for={}", r.pend.0, r.pend.1, asked.len())));
+    }
+    let total: usize = c.progs.iter().map(|p| p.len()).sum();
+    if r.answers.len() != total {
+        o.push(("request-lost".into(), format!("{} requests, {} answers", total, r.answers.len())));
+    }
+    o
+}
+
+fn hexec_case(c: &HCase) -> ImplResult {
+    let mut res = ImplResult::default();
+    let r = match catch(|| hrun(c)) {
+        Ok(r) => r,
+        Err(msg) => {
+            res.out = "PANIC".into();
+            res.oracle.push(("panic".into(), msg));
+            return res;
+        }
+    };
+    res.out = r.summary.clone();
+    res.oracle = horacle(c, &r);
+    let mut users: BTreeMap<(usize, u8), usize> = BTreeMap::new();
+    for (_, _, k, fk, _) in &r.answers {
+        *users.entry((*k, *fk)).or_insert(0) += 1;
+    }
+    res.nontrivial = users.values().any(|n| *n >= 2) && !r.gets.is_empty();
+    res.tags.push(format!("http-exec:{}", c.mode));
+    res.tags.push(format!("http-urls:{}", c.nurls));
+    for ((_, fk), (u, l)) in &c.srv {
+        res.tags.push(format!("http-kind:{}", if *fk == 3 { "symbols".to_string() } else { fk.to_string() }));
+        res.tags.push(format!("http-file:{}", if *l { "in-cache" } else if u.map(|u| u < c.nurls).unwrap_or(false) { "served" } else { "nowhere" }));
+    }
+    res.tags.sort();
+    res.tags.dedup();
+    res
+}
+
+fn gen_http(tier: Tier, rng: &mut Rng, emit: &mut dyn FnMut(String)) {
+    let n = if tier == Tier::Quick { 500 } else { 12_000 };
+    for i in 0..n {
+        let nm = rng.range(1, 3) as usize;
+        let mut mods: Vec<ModSpec> = (0..nm).map(|m| mod_plain(m as u64)).collect();
+        if rng.chance(1, 3) {
+            // the same module again under another index: same key, same slot
+            let d = mods[rng.below(nm as u64) as usize].clone();
+            mods.push(d);
+        }
+        let nurls = rng.range(0, 3) as usize;
+        let nt = rng.range(2, 5) as usize;
+        // per key: either symbol lookups or BreakpadSym file lookups, never both (they share the cached file)
+        let sym_keys: Vec<bool> = (0..mods.len()).map(|_| rng.chance(1, 3)).collect();
+        let c0 = HCase { mode: if i % 3 == 0 { 'm' } else { 'j' }, mods, nurls, progs: vec![], srv: BTreeMap::new() };
+        let progs: Vec<Vec<Rq>> = (0..nt)
+            .map(|_| {
+                (0..rng.range(1, 3))
+                    .map(|_| {
+                        let m = rng.below(c0.mods.len() as u64) as usize;
+                        if sym_keys[c0.key(m)] && rng.chance(1, 2) {
+                            Rq { kind: Rk::Fill, m }
+                        } else {
+                            let fk = if sym_keys[c0.key(m)] { rng.range(1, 2) } else { rng.below(3) } as u8;
+                            Rq { kind: Rk::File(fk), m }
+                        }
+                    })
+                    .collect()
+            })
+            .collect();
+        let mut c = HCase { progs, ..c0 };
+        for q in c.progs.clone().iter().flatten() {
+            let fk = match q.kind {
+                Rk::Fill => 3,
+                Rk::File(fk) => fk,
+                Rk::Walk => continue,
+            };
+            let k = c.key(q.m);
+            c.srv.entry((k, fk)).or_insert_with(|| {
+                let u = match rng.below(4) {
+                    0 => None,
+                    _ => Some(rng.below(3) as usize),
+                };
+                (u, rng.chance(1, 6))
+            });
+        }
+        emit(render_hcase(&c));
+    }
+}
+
 // ------------------------------------------------------------------------------- generators (`once req`)
 
 fn mod_plain(i: u64) -> ModSpec {
@@ -2284,6 +2764,7 @@ impl Engine for Once {
             emit(fmt_cfg(&progs, &sup, mode, sched));
         }
         gen_req(tier, rng, emit);
+        gen_http(tier, rng, emit);
     }
 
     fn model_request(&self, case: &str) -> Option<String> {
@@ -2301,6 +2782,15 @@ impl Engine for Once {
         if case.starts_with("once req ") {
             return match parse_rcase(case) {
                 Some(c) => rexec_case(&c),
+                None => {
+                    res.out = "bad-op".into();
+                    res
+                }
+            };
+        }
+        if case.starts_with("once http ") {
+            return match parse_hcase(case) {
+                Some(c) => hexec_case(&c),
                 None => {
                     res.out = "bad-op".into();
                     res
